@@ -129,8 +129,13 @@ fn main() {
         "C15" => {
             let max_len = if cli.thorough { 100_000 } else { 20_000 };
             parts.push(make_part("sock-cuts", "CONV/sock", cli.cases(600, 30_000), move || props_sock2::c15_sock_strategy(max_len), sock::SockWorker::new, |w, c| props_sock2::c15_sock_test(w, c)));
+            let (lo, hi, k) = if cli.thorough { (11_000, 32_000, 48) } else { (11_000, 13_000, 8) };
+            let mut p = make_part("real-stalled-client", "CONV/sock", k, move || props_sock2::c15_stalled_strategy(lo, hi), |_| (), |w, c| props_sock2::c15_stalled_test(w, c));
+            p.max_workers = Some(8);
+            p.max_shrink_iters = 2;
+            parts.push(p);
             (
-                "part sock-cuts: corpus conversations over real UNIX/TCP sockets, the client sends a prefix (cut at a region boundary -1/0/+1 or at a random offset) and then half-closes, closes, or resets (SO_LINGER 0); oracle: delivered ids are a subset of the requests complete in the prefix (= and answered for half-close), respond() = Ok, no panic, and a fresh connection to the same server is served afterwards; non-trivial: cut strictly inside a message",
+                "part real-stalled-client: a response of 8-31 MiB (identity or chunked) to a TCP/UNIX client that reads nothing (or a little and then nothing) for 11-13 s (thorough: up to 32 s) and then closes, resets or half-closes and closes: respond() returns Ok — not an error, a panic or a hang — and a second connection is served during the stall; non-trivial: respond() was still writing when the client went; part sock-cuts: corpus conversations over real UNIX/TCP sockets, the client sends a prefix (cut at a region boundary -1/0/+1 or at a random offset) and then half-closes, closes, or resets (SO_LINGER 0); oracle: delivered ids are a subset of the requests complete in the prefix (= and answered for half-close), respond() = Ok, no panic, and a fresh connection to the same server is served afterwards; non-trivial: cut strictly inside a message",
                 vec!["socket engine: after an abrupt close late deliveries are only waited for briefly (a late delivery is then not attributed to the case)", "a panic is attributed to the case during which it was observed"],
             )
         }
